@@ -25,8 +25,143 @@ func init() {
 	})
 }
 
+// runC10Special: target types outside the plain universe — a struct (or
+// pointer to struct) embedding argmapper.Struct, whose fields are the
+// requirements, and an interface type whose only producer legitimately
+// yields a nil interface value.
+func runC10Special(c *CaseCtx, r *rand.Rand) (res CaseResult) {
+	res.NonTrivial = true
+	defer func() {
+		if p := recover(); p != nil {
+			res.violate("C06", "panic/convert-"+crashKey(fmt.Sprint(p)), fmt.Sprintf("panicked: %v", p), map[string]interface{}{"case": res.Key})
+		}
+	}()
+	if r.Intn(3) == 0 {
+		// nil interface value from the only producer
+		res.Key = "nil-interface-producer"
+		execs := 0
+		conv, _ := am.NewFunc(func(a T0) I1 { execs++; return nil })
+		args := []am.Arg{am.Typed(T0{ID: 5}), am.ConverterFunc(conv)}
+		v, err := am.Convert(types[tI1], args...)
+		res.Evals++
+		idf, _ := am.NewFunc(func(x I1) I1 { return x })
+		rr := idf.Call(args...)
+		res.Evals++
+		det := map[string]interface{}{"case": res.Key, "convert_err": errStr(err), "identity_err": errStr(rr.Err())}
+		if (err == nil) != (rr.Err() == nil) {
+			res.violate("C10", "differs-from-identity-call", fmt.Sprintf("producer yields a nil interface value: Convert err=%v, identity call err=%v", err != nil, rr.Err() != nil), det)
+		}
+		if err == nil && v != nil {
+			res.violate("C10", "value-differs", "Convert returned a non-nil value although the producer returned nil", det)
+		}
+		if rr.Err() == nil && (rr.Len() != 1 || rr.Out(0) != nil) {
+			res.violate("C17", "out", "identity call did not hand on the nil interface value", det)
+		}
+		res.obs("nil_interface_cases", 1)
+		res.Sample = det
+		return res
+	}
+	// struct target
+	nf := 1 + r.Intn(3)
+	perm := r.Perm(nConcrete)
+	var ls []Label
+	for i := 0; i < nf; i++ {
+		l := Label{Type: perm[i]}
+		if r.Intn(2) == 0 {
+			l.Name = []string{"a", "b", "c"}[i]
+		}
+		ls = append(ls, l)
+	}
+	ptr := r.Intn(2) == 0
+	st := structType(ls, ptr, "cv", r, false)
+	res.Key = "struct-target " + labelsStr(ls) + fmt.Sprint(ptr)
+	// each field has an exact input, except possibly one that is converted
+	var args []am.Arg
+	want := map[int]int64{}
+	var id int64 = 10
+	conv := -1
+	if r.Intn(2) == 0 {
+		conv = r.Intn(nf)
+	}
+	var convID int64
+	for i, l := range ls {
+		id++
+		if i == conv {
+			src := perm[nf] // a type not used by any field
+			convID = id
+			args = append(args, am.Typed(mk(src, id).Interface()))
+			out := l
+			ft := reflect.FuncOf([]reflect.Type{types[src]}, []reflect.Type{structType([]Label{out}, false, "cvo", r, false)}, false)
+			fn := reflect.MakeFunc(ft, func(a []reflect.Value) []reflect.Value {
+				o := reflect.New(ft.Out(0)).Elem()
+				o.Field(1).Set(mk(out.Type, 1000+a[0].Field(0).Int()))
+				return []reflect.Value{o}
+			})
+			args = append(args, am.Converter(fn.Interface()))
+			want[i] = 1000 + id
+			continue
+		}
+		want[i] = id
+		args = append(args, am.NamedSubtype(l.Name, mk(l.Type, id).Interface(), ""))
+	}
+	_ = convID
+	r.Shuffle(len(args), func(i, j int) { args[i], args[j] = args[j], args[i] })
+	v, err := am.Convert(st, args...)
+	res.Evals++
+	idfn := reflect.MakeFunc(reflect.FuncOf([]reflect.Type{st}, []reflect.Type{st}, false), func(a []reflect.Value) []reflect.Value { return a })
+	idf, ferr := am.NewFunc(idfn.Interface())
+	det := map[string]interface{}{"case": res.Key, "convert_err": firstLine(errStr(err))}
+	if ferr != nil {
+		res.violate("C14", "accepted-shape-rejected", "NewFunc rejected func(S) S: "+ferr.Error(), det)
+		return res
+	}
+	rr := idf.Call(args...)
+	res.Evals++
+	det["identity_err"] = firstLine(errStr(rr.Err()))
+	fieldsOf := func(x interface{}) map[int]int64 {
+		m := map[int]int64{}
+		if x == nil {
+			return m
+		}
+		sv := reflect.ValueOf(x)
+		if sv.Kind() == reflect.Ptr {
+			if sv.IsNil() {
+				return m
+			}
+			sv = sv.Elem()
+		}
+		for i := range ls {
+			m[i], _ = idOf(sv.Field(i + 1))
+		}
+		return m
+	}
+	if (err == nil) != (rr.Err() == nil) {
+		res.violate("C10", "differs-from-identity-call", fmt.Sprintf("struct target: Convert err=%v, identity call err=%v", err != nil, rr.Err() != nil), det)
+	}
+	if err != nil {
+		res.violate("C05", "incomplete/convert-struct", "every field of the struct target has an input (or a one-step conversion) but Convert failed: "+firstLine(errStr(err)), det)
+	} else {
+		if v == nil || !reflect.TypeOf(v).AssignableTo(st) {
+			res.violate("C10", "not-assignable", fmt.Sprintf("Convert returned %T for target %v", v, st), det)
+		} else if got := fieldsOf(v); !reflect.DeepEqual(got, want) {
+			res.violate("C10", "value-differs", fmt.Sprintf("struct target fields carry %v, want %v", got, want), det)
+		}
+	}
+	if rr.Err() == nil {
+		if got := fieldsOf(rr.Out(0)); !reflect.DeepEqual(got, want) {
+			res.violate("C03", "named-not-exact", fmt.Sprintf("identity call on the struct type: fields carry %v, want %v", got, want), det)
+		}
+	}
+	res.obs("struct_target_cases", 1)
+	res.Sample = det
+	return res
+}
+
 func runC10(c *CaseCtx) (res CaseResult) {
 	r := caseRand(c.Seed, "C10", c.Idx)
+	if c.Idx%10 == 7 {
+		return runC10Special(c, r)
+	}
 	var s Scenario
 	fam := ""
 	switch x := r.Intn(100); {
